@@ -65,7 +65,9 @@ private theorem fieldRelB_closed {cfg : Cfg} {N : List (String × Addr)} {h0 hou
   refine (fieldShape_iff _ hout c).mpr ⟨f', e2, by rw [hty]; exact refOK_repoint N f.ty (hreg _ hc0), ?_⟩
   exact all2_argRelB_closed hreg ha0 hargs
 
-/-- PARTIAL form of `ExtendClosed` (see the header): the part of the result that is rebuilt from the source is closed -/
+/-- SUBSUMED by the full `extend_closed` for the variant of /repo; kept because it holds for EVERY variant that rebuilds all
+    types (no `extInputFieldExtended`, no `ExtOK`: also for documents using undefined names).
+    PARTIAL form of `ExtendClosed` (see the header): the part of the result that is rebuilt from the source is closed -/
 theorem extend_closed_kept_partial (cfg : Cfg) (hk : cfg.extKeepAll = true) (ext : Ext) (s : Schema) (h : Heap)
     (hc : closedB h s = true) (hw : wfB h s = true) (hnew : ∀ e, e ∈ ext.newTypes → e.1 ∉ names s)
     (n : String) (a : Addr) (t : TypeO) (hm : (n, a) ∈ s.types) (hp : isProtected n = false) (ht : h.readType a = some t) :
@@ -230,6 +232,47 @@ example : closedB h0 s0 = true ∧ wfB h0 s0 = true ∧ ExtOK s0 zed := by
     subst hf
     exact ⟨Or.inl (by decide), fun g hg => by cases hg⟩
   · intro e g he hg; simp [zed] at he
+
+/-! ### the hypothesis `extInputFieldExtended` is needed (C11-S1) -/
+
+/-- `enum E`, `input In { a: String }`, `type Query { f(x: In): String }` -/
+def hIn : Heap := ⟨[
+  .type { kind := .scalar, name := "String", desc := none, fields := [], ifaces := [], members := [], dres := none, rtype := none, values := [], prot := true },
+  .type { kind := .enum, name := "E", desc := none, fields := [], ifaces := [], members := [], dres := none, rtype := none, values := ["A|None|None"], prot := false },
+  .type { kind := .input, name := "In", desc := none, fields := [3], ifaces := [], members := [], dres := none, rtype := none, values := [], prot := false },
+  .arg { name := "a", ty := sStr, py := "a", dflt := none, desc := none },
+  .type { kind := .object, name := "Query", desc := none, fields := [5], ifaces := [], members := [], dres := none, rtype := none, values := [], prot := false },
+  .field { name := "f", ty := sStr, args := [6], desc := none, depr := none, res := none, sub := none, py := "f" },
+  .arg { name := "x", ty := .named ⟨"In", 2⟩, py := "x", dflt := none, desc := none }]⟩
+def sIn : Schema := { types := [("String", 0), ("E", 1), ("In", 2), ("Query", 4)], dirs := [], query := some ⟨"Query", 4⟩,
+                      mutation := none, subscription := none, dres := none }
+/-- `extend input In { e: E }` -/
+def extInE : Ext := { newTypes := [], fields := [], inputFields := [("In", [{ name := "e", ty := .named "E" }])], members := [], values := [], newDirs := [] }
+
+private theorem extOK_inE : ExtOK sIn extInE := by
+  refine ⟨⟨?_, ?_, ?_, ?_, ?_⟩, by decide, by decide⟩
+  · intro nm f hf; simp [extInE, assocD] at hf
+  · intro nm g hg
+    simp only [extInE, assocD, List.find?_cons, List.find?_nil] at hg
+    split at hg
+    · simp only [Option.map_some, Option.getD_some, List.mem_singleton] at hg
+      subst hg
+      exact Or.inl (by decide)
+    · simp at hg
+  · intro nm m hm; simp [extInE, assocD] at hm
+  · intro e f he hf; simp [extInE] at he
+  · intro e g he hg; simp [extInE] at he
+
+/-- REFUTATION for the code before C11-S1 was fixed (added input fields built against the registry of the schema being
+    extended): the added input field `In.e` references the SOURCE's `E`, not the rebuilt `E` the result registers -/
+theorem extend_closed_refuted_unextended_inputs : ¬ ExtendClosed { Cfg.fixed with extInputFieldExtended := false } := by
+  intro hf
+  have := hf extInE sIn hIn (by decide) (by decide) extOK_inE
+  revert this
+  decide
+
+/-- … and closed with the fix, on the same history -/
+theorem extend_closed_witness_fixed : closedB (extend Cfg.fixed extInE sIn hIn).1 (extend Cfg.fixed extInE sIn hIn).2 = true := by decide
 
 /-- non-vacuity on the witness (`Dog implements Pet` keeps its interface reference closed through `type Zed {z: String}`) -/
 example : closedB h0 s0 = true ∧ wfB h0 s0 = true ∧ (∀ e, e ∈ zed.newTypes → e.1 ∉ names s0) ∧ (("Dog", 3) ∈ s0.types) ∧
